@@ -97,7 +97,16 @@ NumCases(w) ==
     Case("num_list", F \o <<58,40>> \o w \o <<32,79,82,32,49,41>>, {F}, {w}, ""),
     Case("num_field", w \o Colon \o X, {w}, {X}, ""), Case("num_bare", w, {}, {w}, "") }
 
+\* thorough tier: random strings over the characters that matter to a SQL scanner, and field x value pairs
+AdvChars == <<39, 34, 92, 59, 45, 45, 47, 42, 0, 255, 37, 95, 10, 36, 63, 40, 41, 44, 32, 97, 49, 39, 92, 195, 169, 58, 91, 93, 123, 125, 126, 94, 43, 61, 62, 60, 46>>
+RECURSIVE RandStr(_)
+RandStr(n) == IF n = 0 THEN <<>> ELSE <<AdvChars[RandomElement(1..Len(AdvChars))]>> \o RandStr(n - 1)
+RandVals == IF Tier = "quick" THEN {} ELSE {RandStr(RandomElement(1..8)) : i \in 1..1500}
+PairCases == IF Tier = "quick" THEN {}
+             ELSE {Case("pair", Esc(Adv[i]) \o Colon \o Esc(Adv[j]), {Adv[i]}, {Adv[j]}, "") : i \in DOMAIN Adv, j \in DOMAIN Adv}
+                  \cup {Case("pair_df", Esc(Adv[j]), {Adv[i]}, {Adv[j]}, "") : i \in {1, 2, 5}, j \in DOMAIN Adv}
 All == UNION {ValueCases(Adv[i]) \cup FieldCases(Adv[i]) : i \in DOMAIN Adv}
+       \cup UNION {ValueCases(w) \cup FieldCases(w) : w \in RandVals} \cup PairCases
        \cup UNION {NumCases(NumLike[i]) : i \in DOMAIN NumLike}
        \cup FieldCases(LongName) \cup ValueCases(LongName)
 Cases == LET s == SetToSeq(All) IN [i \in DOMAIN s |-> s[i] @@ [id |-> i, kind |-> "adv"]]
